@@ -1,4 +1,5 @@
-"""Regenerate MANIFEST.json from tools/manifest_src.json (claimed checks) + properties.jsonl."""
+"""Regenerate MANIFEST.json from tools/manifest_src.json (claimed checks), tools/texts/<ID>.json (level text, note,
+technique per property) and properties.jsonl; and DESIGN.md section 11 from the same tools/texts files."""
 import json, os
 ROOT = os.path.dirname(os.path.dirname(os.path.abspath(__file__)))
 src = json.load(open(os.path.join(ROOT, 'tools', 'manifest_src.json')))
@@ -8,6 +9,10 @@ na = []
 for p in props:
     pid = p['id']
     c = src['checks'].get(pid)
+    tf = os.path.join(ROOT, 'tools', 'texts', pid + '.json')
+    if c is not None and os.path.exists(tf):     # per-property texts (maintained next to each check) win
+        t = json.load(open(tf))
+        c = dict(c, text=t['text'], note=t['note'], technique=t.get('technique', c['technique']))
     if c is None:
         na.append({'property_id': pid, 'reason': src['not_applicable'].get(pid, 'check not built yet in this round; planned (see DESIGN.md section 5)')})
         continue
@@ -35,3 +40,15 @@ m = {
 }
 json.dump(m, open(os.path.join(ROOT, 'MANIFEST.json'), 'w'), indent=1)
 print('checks:', [c['property_id'] for c in checks], 'n/a:', len(na))
+
+# DESIGN.md section 11 is generated from tools/texts/_intro.md and the design_title/design fields
+dp = os.path.join(ROOT, 'DESIGN.md')
+d = open(dp).read()
+i, j = d.index('## 11. As built'), d.index('## 12. Defects found')
+sec = open(os.path.join(ROOT, 'tools', 'texts', '_intro.md')).read().rstrip('\n') + '\n'
+for pr in props:
+    tf = os.path.join(ROOT, 'tools', 'texts', pr['id'] + '.json')
+    if os.path.exists(tf):
+        t = json.load(open(tf))
+        sec += '\n### %s %s\n%s\n' % (pr['id'], t['design_title'], t['design'].strip('\n'))
+open(dp, 'w').write(d[:i] + sec + '\n' + d[j:])
